@@ -163,17 +163,42 @@ def helper(chk, impl):
         rets = [o for o in outs if o.kind == 'ret']
         loops = [o for o in outs if o.kind == 'loop']
         tag = '%s helper at level %d' % (impl, lv)
-        # ---- returns: false for an empty range, else iter().all(is_unused) of its own table
+        # ---- returns: the keep verdict for an empty range, else free / keep by iter().all(is_unused) of its own table. The verdict is a
+        # bool (true = free) or a field-less enum of the crate; which value means "free" is read off the post-loop returns
         okr = bool(rets)
+        frees, keeps, early = set(), set(), set()
+
+        def vrepr(v):
+            if isinstance(v, BV) and v.w == 1 and v.is_const():
+                return ('b', v.value())
+            if isinstance(v, Enum) and v.vi is not None and not v.fields:
+                return ('e', v.vname)
+            return None
         for o in rets:
             ev = [e for e in o.st.events if e[0] in ('call', 'icall')]
             names = [e[1].split('::')[-1] for e in ev]
-            if isinstance(o.val, BV) and o.val.is_const() and o.val.value() == 0 and 'all' not in names and not any(n == 'next' or n == 'iter_mut' for n in names):
-                continue        # empty range: decided before the table is looked at
+            if vrepr(o.val) is not None and 'all' not in names and not any(n == 'next' or n == 'iter_mut' for n in names):
+                early.add(vrepr(o.val))        # empty range: decided before the table is looked at
+                continue
             alls = [e for e in ev if e[1].endswith('Iterator::all')]
             its = [e for e in ev if e[0] == 'icall' and e[1].endswith('PageTable::iter')]
             okr = okr and len(alls) == 1 and len(its) >= 1 and its[-1][2][0].loc == ('obj', 'T') and ev.index(alls[0]) > max([ev.index(x) for x in ev if x[1].endswith('::next')] + [-1])
-            okr = okr and isinstance(o.val, BV) and any(isinstance(b, tuple) and b[0] == 'v' and b[1].startswith('all#') for b in o.val.bits)
+            if okr:
+                allbits = [b for b in (o.val.bits if isinstance(o.val, BV) else ()) if isinstance(b, tuple) and b[0] == 'v' and b[1].startswith('all#')]
+                if isinstance(o.val, BV) and o.val.w == 1 and allbits:
+                    # the bool is the emptiness test itself (or its negation)
+                    frees.add(('b', 0 if allbits[0][3] else 1))
+                    keeps.add(('b', 1 if allbits[0][3] else 0))
+                elif vrepr(o.val) is not None:
+                    # a constant verdict chosen by a branch on the emptiness test
+                    full = o.st.events
+                    brs = [e for e in full[full.index(alls[0]):] if e[0] == 'branch' and isinstance(e[1], tuple) and e[1][0] == 'v' and e[1][1].startswith('all#')]
+                    okr = okr and len(brs) >= 1
+                    if okr:
+                        empty = (brs[0][2] == 1) != brs[0][1][3]
+                        (frees if empty else keeps).add(vrepr(o.val))
+                else:
+                    okr = False
             # the emptiness test ranges over the whole table: `all` is applied to iter() itself, not to a window of it
             if okr:
                 full = o.st.events
@@ -190,7 +215,15 @@ def helper(chk, impl):
             okr = okr and not [e for e in o.st.events if e[0] == 'yield']
             # "empty" means every slot is all-zero (a non-present entry that still holds bits keeps the table alive)
             okr = okr and len(alls) == 1 and len(alls[0][2]) == 2 and entry_pred_is_all_zero(lab.I, alls[0][2][1])
+        # one value means free, another keep, and the empty range keeps
+        okr = okr and len(frees) == 1 and len(keeps) == 1 and frees != keeps and early <= keeps
+        FREE = list(frees)[0] if len(frees) == 1 else ('b', 1)
         chk.ob('clean-up', '%s: returns false for an empty range, otherwise whether its own table is empty after the loop' % tag, okr, 'paths %r' % ([(o.kind, o.val) for o in outs][:6],), site)
+        # the walk never panics: every slot span, clamped range and child address it computes exists for every window, including the last
+        # slot of the address space and the last slot below the non-canonical gap
+        pan = [o for o in outs if o.kind == 'panic']
+        chk.ob('clean-up', '%s: no panicking path (slot spans and clamped ranges are computed without overflow or non-canonical intermediates)' % tag, not pan,
+               '; '.join(sorted({'%s at %s' % (o.val[0], o.val[1]) if isinstance(o.val, tuple) else repr(o.val) for o in pan}))[:300], site)
         if lv == 1:
             chk.ob('clean-up', '%s: level-1 tables are never iterated (no slot visited, nothing freed)' % tag, not loops and all(not [e for e in o.st.events if e[0] in ('yield',) or (e[0] == 'call' and e[1] == DEALLOC)] for o in outs),
                    '%d loop paths' % len(loops), site)
@@ -198,6 +231,8 @@ def helper(chk, impl):
         good = bool(loops)
         why = set()
         n_free = 0
+        # does the iterator chain carry a filter (checked below), or does the loop body decide about the recursive slot itself?
+        filtered = any(e[0] == 'call' and e[1].endswith('Iterator::filter') for o in loops[:1] + rets for e in o.st.events)
         for o in loops:
             ev = o.st.events
             ys = [e for e in ev if e[0] == 'yield']
@@ -216,9 +251,11 @@ def helper(chk, impl):
                 # skipped slot: huge page or absent; nothing may change
                 if deallocs or writes:
                     why.add('a skipped slot is modified or freed')
-                if not (huge == 1 or present == 0):
+                if not (huge == 1 or present == 0 or (impl == 'recursive' and lv == 4 and knows_index(I, o.st, iv, args[roles['rindex']], 1))):
                     why.add('slot skipped although it is a present non-huge entry (env huge=%s present=%s)' % (huge, present))
                 continue
+            if impl == 'recursive' and lv == 4 and not filtered and not knows_index(I, o.st, iv, args[roles['rindex']], 0):
+                why.add('recursion into a level-4 slot that may be the recursive slot')
             if len(rec) != 1:
                 why.add('%d recursive calls in one iteration' % len(rec))
                 continue
@@ -264,8 +301,13 @@ def helper(chk, impl):
                 why.add('the child range is not clamped to the parent range by max(start)/min(end)')
             # what happens after the recursive call
             res_id = rec[0][5]
-            br = [e for e in after[after.index(rec[0]):] if e[0] == 'branch' and isinstance(e[1], tuple) and e[1][0] == 'v' and e[1][1].startswith('%s#%d' % (fn_.split('::')[-1], res_id))]
-            freed = br and ((br[0][2] == 1) != br[0][1][3])
+            rsym = '%s#%d' % (fn_.split('::')[-1], res_id)
+            br = [e for e in after[after.index(rec[0]):] if e[0] == 'branch' and isinstance(e[1], tuple) and e[1][0] == 'v' and e[1][1] == rsym]
+            if FREE[0] == 'b':
+                freed = bool(br) and ('b', int((br[0][2] == 1) != br[0][1][3])) == FREE
+            else:
+                # an enum verdict: the variant this path matched the child's result against
+                freed = child_verdict(I, o.st, fn_, rsym) == FREE
             if freed:
                 n_free += 1
                 wr = [e for e in writes if isinstance(e[1], Ref) and e[1].loc == ('obj', 'T')]
@@ -296,7 +338,12 @@ def helper(chk, impl):
                 okw = I.aff_equal(o.st, I.exact_aff(o.st, tk[0][2][1]), want_take) and same(sk[0][2][1], BV(64, sl('rs', lo, hi) + [0] * 55))
                 break
         chk.ob('clean-up', '%s: iterates slots index(range.start) ..= index(range.end) of this level' % tag, okw, 'take/skip arguments', site)
-        if impl == 'recursive':
+        if impl == 'recursive' and not filtered:
+            # no filter in the chain: the iteration rule above demanded that a level-4 iteration recurses only when the slot is known
+            # not to be the recursive one, and that no other level skips a slot for that reason
+            chk.ob('clean-up', '%s: the slot filter %s' % (tag, 'drops exactly the recursive slot' if lv == 4 else 'keeps every slot'), good and not why,
+                   'decided in the loop body; ' + ('; '.join(sorted(why)) or 'ok'), site)
+        elif impl == 'recursive':
             # the filter closure drops the recursive slot at level 4 only
             flt = None
             for o in loops[:1] + rets:
@@ -323,6 +370,39 @@ def helper(chk, impl):
                 else:
                     okf = all(x.kind == 'ret' and x.val.is_const() and x.val.value() == 1 for x in co)
             chk.ob('clean-up', '%s: the slot filter %s' % (tag, 'drops exactly the recursive slot' if lv == 4 else 'keeps every slot'), okf, 'closure %r' % (flt,), site)
+
+
+def child_verdict(I, st, fn_, rsym):
+    """the variant of the helper's (field-less enum) result that this path has matched the child's result against, or None"""
+    rt = I.fn[fn_]['locals'][0]
+    vs = I.enum_variants(rt) if rt.get('k') == 'adt' else None
+    if not vs:
+        return None
+    bits = {k[1]: v for k, v in st.env.items() if k[0] == rsym}
+    feas = []
+    for vn, d, nf in vs:
+        if all(bits.get(i, (d >> i) & 1) == (d >> i) & 1 for i in range(64)):
+            feas.append(vn)
+    sw = [v for k, v in st.facts.items() if isinstance(k, tuple) and k and k[0] == 'swnot' and rsym in repr(k)]
+    for taken in sw:
+        feas = [vn for vn in feas if [d for n, d, _ in vs if n == vn][0] not in taken]
+    return ('e', feas[0]) if len(feas) == 1 and (bits or sw) else None
+
+
+def knows_index(I, st, iv, rindex, equal):
+    """the path has established that the iterated slot index is (equal=1) / is not (equal=0) the recursive index"""
+    from ..bits import eq_bit
+    r = inner(rindex)
+    a = I.resub(st, iv)
+    b = I.resub(st, r)
+    n = min(a.w, b.w)
+    if any(x != 0 for x in a.bits[n:]) or any(x != 0 for x in b.bits[n:]):
+        return False
+    p = eq_bit(tuple(a.bits[:n]), tuple(b.bits[:n]))
+    if p in (0, 1):
+        return p == equal
+    s2 = st.clone()
+    return not I.assume(s2, p, 1 - equal) or s2.dead
 
 
 def entry_points(chk, impl):
